@@ -159,7 +159,13 @@ def gfm_model(it, bound, node):
     """call-site model of get_file_metadata(path, hashes): a lazy generator"""
     ctx = it.ctx
     path = ctx.force(bound['path'])
-    hv = view(it, bound['hashes'], ctx.heap)
+    hraw = ctx.force(bound['hashes'])
+    hv = view(it, hraw, ctx.heap)
+    hc = it._norm_container(hraw)
+    if isinstance(hc, VSeq) and getattr(hc, 'keys_of', None) is not None:
+        # list(d) / sorted(d): A-dictkeys -- the sequence holds exactly the keys of d
+        it.engine.assumed.add('A-dictkeys: list(d) holds exactly the keys of d')
+        hv = hc.keys_of.t
     FS.fs_axioms(ctx, path.t)
     it.engine.assumed.add('contract of verify.get_file_metadata (behaviour table gfm_cases) used at the call site')
     st = {'case': None, 'pos': 0, 'closed': False}
@@ -319,3 +325,101 @@ def _(c):
                                  z3.Not(OptInt.is_none(ed))),
                           OptInt.val(ed) == f['dev'])
     c.ensures('other-device-never-returns', xdev_must, props=['C16'])
+
+
+# --------------------------------------------------------------------------
+# update_entry_for_path
+
+OptSeqStr = opt_sort(z3.SeqSort(z3.StringSort()))
+
+
+def requested_membership(s):
+    """k is in the effective hash set H: `hashes` if given, else the names the entry had"""
+    hs = s.hashes   # UnionView (Opt) / None / Seq term
+    from vp.contract import UnionView
+    oldc = s.old.e.checksums
+    frm_entry = lambda k: z3.Not(OptStr.is_none(z3.Select(oldc, k)))
+    if hs is None:
+        return frm_entry
+    if isinstance(hs, UnionView):
+        seq = hs.val
+        return lambda k: z3.If(hs.is_none, frm_entry(k), z3.Contains(seq, z3.Unit(k)))
+    return lambda k: z3.Contains(hs, z3.Unit(k))
+
+
+@contract('gemato/verify.py', 'update_entry_for_path', props=['C03', 'C11', 'C12', 'C10', 'C06', 'C16', 'C18'])
+def _(c):
+    c.params(path=Str, e=FileEntry, hashes=Opt(SeqT(Str)), expected_dev=Opt(Int), last_mtime=Opt(Float))
+    c.returns(Bool)
+    c.only_raises('ManifestInvalidPath', 'ManifestCrossDevice', 'OSError', 'UnsupportedHash')
+    c.note('e is a file entry (not IGNORE/TIMESTAMP) by parameter type; callers are checked to respect it')
+
+    def modifies(it, bound):
+        e = bound['e']
+        ctx = it.ctx
+        for f in ('size', 'checksums'):
+            ty = it.engine.field_type(f)
+            ctx.heap[f] = z3.Store(ctx.field_array(f), e.t, ctx.fresh_const('upd!' + f, ty.sort()))
+    c.modifies(modifies)
+
+    def skip_cond(s):
+        f = file_facts(s.path)
+        lm = opt_term(s.last_mtime, OptReal)
+        return z3.And(z3.Not(OptReal.is_none(lm)), f['mtime'] <= OptReal.val(lm), f['size'] != 0,
+                      f['size'] == s.old.e.size)
+
+    def parts(s):
+        f = file_facts(s.path)
+        mem = requested_membership(s)
+        k = z3.Const('k', z3.StringSort())
+        fresh = z3.Lambda([k], z3.If(mem(k), OptStr.some(digest(hashlib_name(k), f['data'])), OptStr.none))
+        unchanged = z3.And(s.e.size == s.old.e.size, s.e.checksums == s.old.e.checksums)
+        refreshed = z3.And(s.e.size == z3.Length(f['data']), s.e.checksums == fresh)
+        was_accurate = z3.And(s.old.e.size == z3.Length(f['data']), s.old.e.checksums == fresh)
+        ok_read = z3.And(f['FE'] == 0, f['RE'] == 0)
+        return f, unchanged, refreshed, was_accurate, ok_read
+
+    c.ensures('returns-only-for-regular-files',
+              lambda s: z3.And(file_facts(s.path)['present'], file_facts(s.path)['SE'] == 0, file_facts(s.path)['reg']))
+
+    def skip_or_refresh(s):
+        f, unchanged, refreshed, was_accurate, ok_read = parts(s)
+        return z3.Or(z3.And(skip_cond(s), unchanged, z3.Not(s.result)), z3.And(ok_read, refreshed))
+    c.ensures('skip-or-refresh-exact', skip_or_refresh)
+
+    def result_iff_changed(s):
+        f, unchanged, refreshed, was_accurate, ok_read = parts(s)
+        return z3.Implies(z3.Not(z3.And(skip_cond(s), unchanged, z3.Not(s.result))),
+                          s.result == z3.Not(was_accurate))
+    c.ensures('result-iff-something-differed', result_iff_changed, props=['C12'])
+
+    def skip_only_if_allowed(s):
+        """C11: an entry whose file is newer than last_mtime, or whose size changed, is refreshed"""
+        f = file_facts(s.path)
+        lm = opt_term(s.last_mtime, OptReal)
+        must = z3.Or(OptReal.is_none(lm), f['mtime'] > OptReal.val(lm), f['size'] != s.old.e.size)
+        return z3.Implies(must, z3.And(s.e.size == z3.Length(f['data']), f['RE'] == 0, f['FE'] == 0))
+    c.ensures('newer-or-resized-is-rehashed', skip_only_if_allowed, props=['C11'])
+
+    c.ensures('frame-type-and-path', lambda s: z3.And(s.e.path == s.old.e.path, s.e.cls == s.old.e.cls), props=['C10'])
+
+    def invalid(s):
+        f = file_facts(s.path)
+        return z3.Or(f['absent'], z3.And(f['present'], f['SE'] == 0, z3.Not(f['reg'])))
+    c.exc_ensures('invalid-path-iff-absent-or-not-regular', 'ManifestInvalidPath', invalid)
+
+    def xdev(s):
+        f = file_facts(s.path)
+        ed = opt_term(s.expected_dev, OptInt)
+        return z3.And(f['present'], f['SE'] == 0, z3.Not(OptInt.is_none(ed)), OptInt.val(ed) != f['dev'])
+    c.exc_ensures('cross-device-only-if-other-device', 'ManifestCrossDevice', xdev, props=['C16'])
+
+    def xdev_must(s):
+        f = file_facts(s.path)
+        ed = opt_term(s.expected_dev, OptInt)
+        return z3.Implies(z3.Not(OptInt.is_none(ed)), OptInt.val(ed) == f['dev'])
+    c.ensures('other-device-never-returns', xdev_must, props=['C16'])
+
+    def untouched_on_error(s):
+        return z3.And(s.e.size == s.old.e.size, s.e.checksums == s.old.e.checksums)
+    c.exc_ensures('entry-untouched-on-failure', 'Exception', untouched_on_error, props=['C06', 'C10'])
